@@ -711,7 +711,7 @@ class Interp(Engine):
         if is_for:
             bind_ghost(z3.IntVal(0))
         for k, inv in enumerate(invs):
-            self.oblige("inv-entry", self.spec_bool(inv), node, "loop%d.%d" % (ordinal, k))
+            self.oblige("inv-entry", self.goal_bool(inv), node, "loop%d.%d" % (ordinal, k))
         # 2. havoc
         for nm in self.assigned_names(node):
             cur = fr.locals.get(nm)
@@ -763,13 +763,13 @@ class Interp(Engine):
                 except PyBreak:
                     return    # continue after the loop, skipping orelse
                 for k, be in enumerate(spec.get("body_ensures", [])):
-                    self.oblige("body-post", self.spec_bool(parse_expr(be)), node, "loop%d.%d" % (ordinal, k))
+                    self.oblige("body-post", self.goal_bool(parse_expr(be)), node, "loop%d.%d" % (ordinal, k))
             finally:
                 self.iter_stack.pop()
             if is_for:
                 bind_ghost(i + 1)
             for k, inv in enumerate(invs):
-                self.oblige("inv-preserved", self.spec_bool(inv), node, "loop%d.%d" % (ordinal, k))
+                self.oblige("inv-preserved", self.goal_bool(inv), node, "loop%d.%d" % (ordinal, k))
             raise PathEnd()
         else:
             if is_for:
@@ -777,6 +777,16 @@ class Interp(Engine):
             self.exec_block(node.orelse)
 
     # --------------------------------------------------------------- spec eval
+    def goal_bool(self, expr, env=None):
+        """a specification clause as a GOAL: if evaluating it contradicts the path (a typed heap read in it is false for the value
+        actually stored) the clause does not hold as written -- the goal is False, never a silently ended path"""
+        n = len(self.st.pc)
+        try:
+            return self.spec_bool(expr, env)
+        except PathEnd:
+            del self.st.pc[n:]
+            return z3.BoolVal(False)
+
     def spec_bool(self, expr, env=None):
         """evaluate a spec expression (ast) to a z3 Bool in the current state"""
         self.spec_mode += 1
